@@ -45,6 +45,7 @@ bool honest_info(const model::Key& k, const bytes& msg, HonestInfo& hi) {
   sim_env_reset(&e, -1);
   if (!G.node_override.empty())
     e.caps_mask = caps_for_node(G.node_override);
+  default_entropy(&e);
   sim_env_set(&e);
   int rc = s_sign(0, k, msg.data(), msg.size(), out.data(), &len);
   sim_env_set(saved);
@@ -234,7 +235,10 @@ void op_sign(const Case& c, TaskCtx& t, Outcome& o) {
   if (has_chk(c, "c03") && rc == 0) {
     bytes ms;
     if (forced)
-      ms = model::sign(p, k.sk, k.C, k.pt, msg, nullptr, &ch);
+      {
+      bytes xr = extra_randomness_bytes(p);
+      ms = model::sign(p, k.sk, k.C, k.pt, msg, nullptr, &ch, &xr);
+    }
     else
       ms = model_signature(k, msg);
     if (t.stats)
@@ -252,7 +256,8 @@ void op_sign(const Case& c, TaskCtx& t, Outcome& o) {
   // ---- C09 only what the protocol permits
   if (has_chk(c, "c09") && rc == 0) {
     model::Trace tr;
-    bytes ms = forced ? model::sign(p, k.sk, k.C, k.pt, msg, &tr, &ch) : model_signature(k, msg, &tr);
+    bytes xr9 = extra_randomness_bytes(p);
+    bytes ms = forced ? model::sign(p, k.sk, k.C, k.pt, msg, &tr, &ch, &xr9) : model_signature(k, msg, &tr);
     bool lowent = c.s("kpat", "rand") != "rand";
     for (auto& s : tr.secrets) {
       if (s.what == "secret_key" && lowent)
@@ -592,7 +597,10 @@ void op_verify(const Case& c, TaskCtx& t, Outcome& o) {
     if (c.u("n") & 1)
       b = (size_t)p.n - 1 - (size_t)((c.u("bit") >> 8) % 8); // the ragged end of the field
     k2.C[b >> 3] ^= (uint8_t)(0x80 >> (b & 7));
-    d.sig = model::sign(p, k2.sk, k2.C, k2.pt, msg);
+    {
+      bytes xr = extra_randomness_bytes(p);
+      d.sig = model::sign(p, k2.sk, k2.C, k2.pt, msg, nullptr, nullptr, &xr);
+    }
     d.msg = msg;
     d.pk = model::ser_pk(k2);
     d.vparam = p.id;
